@@ -133,7 +133,10 @@ def run_extra(ctx):
                           ("id", "equal", "open") + body + ("close",),
                           ("id", "equal", "open") + ("id", "equal", e) * n + ("close",),
                           ("id", "equal", e) * n,
-                          ("id", "equal", "open") + ("open", "close") * (n % 12) + ("id", "equal", e, "close") + ("id", "equal", e) * (n // 12)):
+                          ("id", "equal", "open") + ("open", "close") * (n % 12) + ("id", "equal", e, "close") + ("id", "equal", e) * (n // 12),
+                          # mixed_insert1: a lone key before the close of an object; mixed_insert2: an object that goes on as an array
+                          ("id", "equal", "open") + ("id", "equal", e) * (n // 2) + (e,) * (n % 2) + (e, "close"),
+                          ("id", "equal", "open") + ("id", "equal", e) * (n // 2) + (e,) * (n % 2) + (e, e, e, "close")):
                 h = hexs(B.enc_seq(kinds))
                 # tokens on the tape when the interesting `=` / close arrives: 2 + n (+2 for the ghost); try every slack 0..3
                 for c0 in sorted({0, n + 2, n + 3, n + 4, n + 5}):
